@@ -274,6 +274,46 @@ def handle (j : Json) : P Json := do
       | "providedFresh" => pure .providedFresh | s => throw s!"bad kind {s}")
     let n ← nat (← field j "n")
     pure (Json.mkObj [("lens", .arr ((Iso.runSeq kind n).map fun k => Json.num (JsonNumber.fromNat k)).toArray)])
+  | "isorun" =>
+    -- run-isolation model driven by the REAL call schedule: memory contents seen by every node-function call
+    let cells ← list (list int) (← field j "cells")
+    let dicts ← list (pairs nat) (fieldD j "dicts" (.arr #[]))
+    let deep ← bool (fieldD j "deep" (.bool true))
+    let specs ← list (fun sj => do
+      let nodes ← list (fun nj => do
+        let srcs ← list (fun q => do
+          match q.getObjVal? "default", q.getObjVal? "bound", q.getObjVal? "provided" with
+          | .ok c, _, _ => do pure (Iso.Src.default (← nat c))
+          | _, .ok c, _ => do pure (Iso.Src.bound (← nat c))
+          | _, _, .ok k => do pure (Iso.Src.provided (← str k))
+          | _, _, _ => throw "bad src") (← field nj "srcs")
+        let eff : Iso.Eff ← (match fieldD nj "eff" .null with
+          | .null => pure Iso.Eff.none
+          | e => do
+            let a ← arr e
+            match a.toList with
+            | [i, x] => pure (Iso.Eff.appendTo (← nat i) (← int x))
+            | _ => throw "bad eff")
+        pure ({ srcs := srcs, eff := eff, out := ← str (← field nj "out") } : Iso.Node)) (← field sj "nodes")
+      let values : Option Nat ← (match fieldD sj "values" .null with | .null => pure none | v => do pure (some (← nat v)))
+      let kwargs ← pairs nat (fieldD sj "kwargs" (.arr #[]))
+      pure ({ nodes := nodes, values := values, kwargs := kwargs } : Iso.RunSpec)) (← field j "specs")
+    let sched ← list (fun q => do
+      let a ← arr q
+      match a.toList with
+      | [r, k] => pure ((← nat r), (← nat k))
+      | _ => throw "bad sched entry") (← field j "sched")
+    let w0 : Iso.World := { mem := { cells := cells, dicts := dicts } }
+    let w := Iso.runSched deep specs w0 sched
+    let encInts (l : List Int) : Json := .arr (l.map fun i => Json.num (JsonNumber.fromInt i)).toArray
+    pure (Json.mkObj [
+      ("log", .arr (w.log.map fun c => Json.mkObj [
+        ("rid", .num (JsonNumber.fromNat c.rid)), ("sid", .num (JsonNumber.fromNat c.sid)),
+        ("before", .arr (c.res.before.map encInts).toArray), ("after", encInts c.res.after),
+        ("args", .arr (c.args.map fun a => Json.arr #[.num (JsonNumber.fromNat a.ref),
+            match a.copyOf with | some r => .num (JsonNumber.fromNat r) | none => .null]).toArray)]).toArray),
+      ("cells", .arr ((w.mem.cells.take cells.length).map encInts).toArray),
+      ("dicts", .arr ((w.mem.dicts.take dicts.length).map fun d => encAL (fun r => Json.num (JsonNumber.fromNat r)) d).toArray)])
   | "rename" =>
     -- rename bookkeeping: original names, optional constructor batch, successive call batches
     let orig ← list str (← field j "orig")
